@@ -1,11 +1,70 @@
 /-
-  C07 — mapping is a pure function of the genotype (theorems are added below as they are proved).
+  C07 — the genotype → phenotype mapping is a pure function of the genotype.
+
+  GE / SGE (as repaired): the model's mapping takes the grammar, the decider and the genotype and
+  nothing else — there is no shared stream it could draw from; what is proved is that the only
+  source it runs on is, from the first draw to the last, a cursor over the SAME genes
+  (`C07_gene_source_never_leaves_genotype`): mapping never modifies or swaps the genotype.
+
+  Dynamic SGE: the genotype may be extended on demand from the shared stream, and only extended
+  (`C07_dsge_extension_monotone`).
 -/
 import GEVerif.Model.Linear
+import GEVerif.Lemmas.SynM
+import GEVerif.Lemmas.Genotype
 
 namespace GEVerif.C07
-open GEVerif
+open GEVerif GEVerif.Genotype
 
-theorem C07_placeholder : True := trivial
+/-- One primitive draw on a genotype-backed source leaves a genotype-backed source over the same
+genes (only the cursor moves), whether the draw succeeds or raises. -/
+theorem C07_draw_keeps_genotype (lo hi : Int) (s : SynSt) (x : GeneSrc) (hs : s.src = .gene x) :
+    (∃ y, (rawRandintM lo hi s).state.src = .gene y ∧ y.dna = x.dna) ∧
+    (∃ y, (randintM lo hi s).state.src = .gene y ∧ y.dna = x.dna) :=
+  ⟨geneKept_stepRel.raw lo hi s x hs, geneKept_stepRel.closed0.randint lo hi s x hs⟩
+
+/-- Through the whole of `create_node` (every decider, every type, ok and error results alike):
+if the source is the genotype `x.dna` at the start, it is the genotype `x.dna` at the end.
+(`metaFromGenes` is irrelevant: the statement holds for both settings.) -/
+theorem C07_gene_source_never_leaves_genotype (g : Grammar) (dec : Decider) (fuel : Nat) (ty : Ty)
+    (ctx : Ctx) (deps : List (String × Val)) (s : SynSt) (x : GeneSrc) (hs : s.src = .gene x) :
+    ∃ y, (createNode g dec fuel ty ctx deps s).state.src = .gene y ∧ y.dna = x.dna :=
+  createNode_geneKept g dec fuel ty ctx deps s x hs
+
+/-- GE mapping: by definition a function of (grammar, decider, fuel, genes, the decider's
+`expanding` flag — always `True` in the code, which maps on a fresh copy of the decider) run on
+the state whose only random source is the genotype; and at the end of the mapping (program or
+exception) that source is still the same genotype: nothing else was ever drawn from. -/
+theorem C07_mapGE_deterministic (g : Grammar) (dec : Decider) (fuel : Nat) (dna : List Int)
+    (expanding : Bool) :
+    mapGE g dec fuel dna expanding =
+      createNode g dec fuel (.cls g.spec.start) ⟨0, 0⟩ []
+        { src := .gene { dna := dna, index := 0 }, expanding := expanding } ∧
+    ∃ y, (mapGE g dec fuel dna expanding).state.src = .gene y ∧ y.dna = dna :=
+  ⟨rfl, createNode_geneKept g dec fuel (.cls g.spec.start) ⟨0, 0⟩ []
+    { src := .gene { dna := dna, index := 0 }, expanding := expanding } { dna := dna, index := 0 } rfl⟩
+
+/-- SGE mapping: a function of the `$infrastructure` gene list alone — two genotypes that agree
+on it map to the same result — and it runs on that gene list only. -/
+theorem C07_mapSGE_deterministic (g : Grammar) (dec : Decider) (fuel : Nat) (dna dna' : SGEDna)
+    (expanding : Bool) (h : sgeLookup "$infrastructure" dna = sgeLookup "$infrastructure" dna') :
+    mapSGE g dec fuel dna expanding = mapSGE g dec fuel dna' expanding ∧
+    ∃ y, (mapSGE g dec fuel dna expanding).state.src = .gene y ∧
+      y.dna = sgeLookup "$infrastructure" dna := by
+  refine ⟨?_, (C07_mapGE_deterministic g dec fuel _ expanding).2⟩
+  unfold mapSGE
+  rw [h]
+
+/-- Dynamic SGE: mapping only ever EXTENDS the genotype — under every key the old gene list is a
+prefix of the new one — whether it returns a program or raises. -/
+theorem C07_dsge_extension_monotone (g : Grammar) (maxDepth fuel : Nat) (dna : DSGEDna)
+    (shared : Script) (k : Ty) :
+    tyLookup k [] dna <+: tyLookup k [] (mapDSGE g maxDepth fuel dna shared).state.dna := by
+  unfold mapDSGE
+  dsimp only
+  split
+  · exact List.prefix_refl _
+  · exact createNode_dnaGrows g _ fuel _ _ _
+      { src := .scripted shared, dna := dna, pos := [], metaFromGenes := true } k
 
 end GEVerif.C07
